@@ -32,6 +32,8 @@ void sched_label(const void* obj, const char* name);
 /* on deadlock / livelock the shim calls this (never returns normally: the process cannot continue) */
 extern void (*sched_on_stuck)(const sched_result* r);
 int sched_active(void);
+/* fault injection: the k-th pthread_create from now on (1-based) returns EAGAIN (thread limit reached); 0 switches it off */
+void sched_fail_create_at(int k);
 /* logical clock: increases at every scheduling point (total order of events under the serialising scheduler) */
 uint64_t sched_clock(void);
 #endif
